@@ -369,8 +369,15 @@ def gen_grading(rng, K, n):
         b1, b2 = a1 + lo, a1 + width - hi
         spts = sorted({b1, b2} | {b1 + (b2 - b1) * F(rng.randint(1, 15), 16) for _ in range(rng.randint(0, 3))})
         band = {'prim': 'bandpass', 'leaf': table_on(bpts, False, rng)}
+        if rng.random() < 0.25:
+            # a bandpass with an analytic integral of its own (the grading is defined with the trapezoid rule on the
+            # band's sampling set whatever the configured default integrator)
+            band = O.fill_ss({'prim': 'bandpass', 'leaf': {'leaf': 'box', 'amp': q(F(rng.randint(1, 16), 16)), 'x0': q(a1 + width / 2),
+                                                           'width': q(width), 'step': q(width / rng.choice([4, 8, 32]))}})
         src = {'prim': 'source', 'leaf': table_on(spts, False, rng, scale=F(2) ** rng.choice([0, 0, -20, -30, -40, -60, 30]))}
         c = {'op': 'check_overlap', 'const': K, 'band': band, 'other': O.fill_ss(src), '_kind': kind}
+        if band['leaf']['leaf'] == 'box' and rng.random() < 0.5:
+            c['_conf'] = {'default_integrator': 'analytical'}
         if rng.random() < 0.5:
             c['ovthr'] = q(rng.choice([F(1, 1000), F(1, 200), F(1, 20), F(1, 5), F(1, 2)]))
         cases.append(c)
